@@ -7,6 +7,7 @@ import (
 	"github.com/uhppoted/uhppote-core/uhppote"
 	"net"
 	"os"
+	"strconv"
 	"strings"
 	"sync"
 	"sync/atomic"
@@ -39,7 +40,9 @@ type c10Datagram struct {
 type c10Delivered struct {
 	t        int64
 	status   *types.Status
-	snapshot string
+	fields   rm.Vals // projection at delivery (compared with the reference decoding of the datagram)
+	snapshot string  // its rendering
+	mine     string  // rendering after the application has written into the status it was given (compared again at the end)
 	serial   uint32
 	seqid    uint32
 }
@@ -52,6 +55,7 @@ type c10Listener struct {
 	acks           atomic.Int64
 	slowEvery      int
 	errFalse       bool          // OnError returns false
+	scribble       bool          // the callback writes into the maps of the status it is given
 	blockAt        int           // > 0: the callback of the blockAt-th event blocks until release is closed
 	release        chan struct{} // (a burst piles up behind one busy callback)
 	boundAtConnect bool
@@ -73,7 +77,18 @@ func (l *c10Listener) OnConnected() {
 }
 
 func (l *c10Listener) OnEvent(s *types.Status) {
-	d := c10Delivered{t: farm.Mono(), status: s, snapshot: adapter.PStatus(s).String(), serial: uint32(s.SerialNumber), seqid: s.SequenceId}
+	fields := adapter.PStatus(s)
+	d := c10Delivered{t: farm.Mono(), status: s, fields: fields, snapshot: fields.String(), serial: uint32(s.SerialNumber), seqid: s.SequenceId}
+	if l.scribble {
+		// the status is the application's: it flips every door flag in it - no other status, earlier or later, is affected
+		for k, v := range s.DoorState {
+			s.DoorState[k] = !v
+		}
+		for k, v := range s.DoorButton {
+			s.DoorButton[k] = !v
+		}
+	}
+	d.mine = adapter.PStatus(s).String()
 	l.mu.Lock()
 	l.events = append(l.events, d)
 	n := len(l.events)
@@ -96,6 +111,127 @@ func (l *c10Listener) OnError(err error) bool {
 	l.mu.Unlock()
 	l.acks.Add(1)
 	return !l.errFalse // the library must cope with either answer
+}
+
+// c10Signal: an application defined os.Signal.
+type c10Signal string
+
+func (s c10Signal) String() string { return string(s) }
+func (s c10Signal) Signal()        {}
+
+// rxQueue: bytes waiting in the receive queue of the UDP socket bound to 127.0.0.3:port (-1: no such socket).
+func rxQueue(port int) int64 {
+	b, err := os.ReadFile("/proc/net/udp")
+	if err != nil {
+		return -1
+	}
+	want := fmt.Sprintf("0300007F:%04X", port)
+	for _, line := range strings.Split(string(b), "\n") {
+		f := strings.Fields(line)
+		if len(f) > 4 && f[1] == want {
+			if i := strings.IndexByte(f[4], ':'); i >= 0 {
+				v, _ := strconv.ParseInt(f[4][i+1:], 16, 64)
+				return v
+			}
+		}
+	}
+	return -1
+}
+
+// c10StopWithEventInHand: the callback is busy with event 1; event 2 has been read from the socket (the socket's receive queue is
+// empty) and is waiting to be handed over; the stop signal arrives; only then does the callback return. Both events were received
+// while listening: both are delivered, once, in order, and Listen returns nil.
+func c10StopWithEventInHand(c *Ctx, r gen.R, round int) {
+	port := freePort("127.0.0.3")
+	if port == 0 {
+		return
+	}
+	addr := fmt.Sprintf("127.0.0.3:%d", port)
+	u := mkClient(ClientCfg{Bind: "127.0.0.1:0", Listen: addr, Timeout: time.Second})
+	lst := &c10Listener{addr: addr, blockAt: 1, release: make(chan struct{})}
+	q := make(chan os.Signal, 1)
+	done := make(chan error, 1)
+	go func() { done <- u.Listen(lst, q) }()
+	for k := 0; k < 3000; k++ {
+		lst.mu.Lock()
+		n := len(lst.connected)
+		lst.mu.Unlock()
+		if n > 0 {
+			break
+		}
+		time.Sleep(time.Millisecond)
+	}
+	conn, err := net.Dial("udp4", addr)
+	if err != nil {
+		q <- os.Interrupt
+		return
+	}
+	defer conn.Close()
+	ev := func(k uint32) []byte { return c17Event(0x0a000000+uint32(round), uint32(round)<<8+k) }
+	extra := 1 + r.Pick(3)
+	conn.Write(ev(1))
+	for k := 0; k < 2000; k++ { // the callback has event 1
+		lst.mu.Lock()
+		n := len(lst.events)
+		lst.mu.Unlock()
+		if n >= 1 {
+			break
+		}
+		time.Sleep(time.Millisecond)
+	}
+	for k := 0; k < extra; k++ {
+		conn.Write(ev(uint32(2 + k)))
+	}
+	// the library has taken event 2 off the socket (it reads one datagram ahead of the busy callback); any further ones stay queued
+	wantQueued := int64(extra - 1)
+	read := false
+	for k := 0; k < 1000; k++ {
+		if v := rxQueue(port); v >= 0 && ((wantQueued == 0 && v == 0) || (wantQueued > 0 && v > 0 && k > 20)) {
+			read = true
+			break
+		}
+		time.Sleep(time.Millisecond)
+	}
+	time.Sleep(5 * time.Millisecond)
+	c.Res.Eval(1)
+	c.Res.DistinctKey("stop-with-event-in-hand", extra)
+	c.Res.Count("cycles:stop-with-an-event-read-but-not-yet-delivered", 1)
+	q <- os.Interrupt
+	time.Sleep(time.Duration(5+r.Pick(40)) * time.Millisecond)
+	close(lst.release)
+	var lerr error
+	select {
+	case lerr = <-done:
+	case <-time.After(5 * time.Second):
+		c.Res.Violate("C10:stop:hang", "Listen did not return within 5 s of the stop signal (callback busy, an event in hand)", nil, int64(round))
+		return
+	}
+	if lerr != nil {
+		c.Res.Violate("C10:stop:error", "Listen returned an error after the stop signal: "+lerr.Error(), nil, int64(round))
+	}
+	time.Sleep(50 * time.Millisecond) // the dispatch goroutine may still be finishing its last callbacks
+	lst.mu.Lock()
+	defer lst.mu.Unlock()
+	got := []uint32{}
+	for _, e := range lst.events {
+		got = append(got, e.seqid&0xff)
+	}
+	w := map[string]any{"delivered_sequence_ids": got, "sent": 1 + extra, "read_ahead_observed": read}
+	if !read {
+		c.Res.Inconcl("stop-with-event-in-hand: could not observe the socket's receive queue draining")
+		return
+	}
+	// events 1 and 2 were received before the stop: they must be there, in order; later ones (still in the socket) may or may not be
+	if len(got) < 2 || got[0] != 1 || got[1] != 2 {
+		c.Res.Violate("C10:event:lost-at-stop", fmt.Sprintf("an event that had been read from the socket before the stop signal (the callback was busy with the one before it) was not delivered: delivered sequence ids %v", got), w, int64(round))
+		return
+	}
+	for i := 1; i < len(got); i++ {
+		if got[i] != got[i-1]+1 {
+			c.Res.Violate("C10:event:order", fmt.Sprintf("events delivered out of order or twice around the stop: %v", got), w, int64(round))
+			return
+		}
+	}
 }
 
 func rcvbufErrors() int64 {
@@ -274,7 +410,7 @@ func c10(c *Ctx) {
 			c.Res.Count("cycles:same-client-listening-again", 1)
 		}
 		prevU, prevAddr = u, addr
-		lst := &c10Listener{addr: addr, errFalse: cycle%2 == 1}
+		lst := &c10Listener{addr: addr, errFalse: cycle%2 == 1, scribble: cycle%3 == 0}
 		if cycle%3 == 1 {
 			lst.slowEvery = 5 + r.Pick(10)
 		}
@@ -407,12 +543,14 @@ func c10(c *Ctx) {
 				time.Sleep(time.Millisecond)
 			}
 		}
+		stopWith := []os.Signal{os.Interrupt, syscall.SIGTERM, syscall.SIGUSR1, syscall.SIGHUP, syscall.SIGUSR2, c10Signal("stop")}[cycle%6] // whatever arrives on the channel stops the listener
 		fullyAcked := lst.acks.Load() >= sentTotal.Load()
 		if stalled.Load() {
 			c.Res.Count("cycles:senders-gave-up-waiting-for-acknowledgements", 1)
 		}
 		tSignal := farm.Mono()
-		q <- os.Interrupt
+		q <- stopWith
+		c.Res.Count("stop-signal:"+stopWith.String(), 1)
 		var lerr error
 		returned := false
 		select {
@@ -494,7 +632,7 @@ func c10(c *Ctx) {
 			}
 			lastN[d.sender] = d.n
 			// every field is the protocol decoding of that datagram
-			if msg := d.exp.Judge(rm.Outcome{Fields: adapter.PStatus(ev.status)}); msg != "" {
+			if msg := d.exp.Judge(rm.Outcome{Fields: ev.fields}); msg != "" {
 				key := "C10:event:content"
 				if strings.Contains(msg, "SystemDateTime") {
 					key = "C10:event:content:SystemDateTime"
@@ -502,7 +640,7 @@ func c10(c *Ctx) {
 				c.Res.Violate(key, fmt.Sprintf("delivered event differs from the protocol decoding of its datagram: %s", msg), w(map[string]any{"datagram": wk.Hex(d.data), "delivered": ev.snapshot}), int64(cycle))
 			}
 			// ... and does not change afterwards
-			if now := adapter.PStatus(ev.status).String(); now != ev.snapshot {
+			if now := adapter.PStatus(ev.status).String(); now != ev.mine {
 				c.Res.Violate("C10:event:changed-after-delivery", fmt.Sprintf("a delivered status changed after the callback: %s -> %s", ev.snapshot, now), w(nil), int64(cycle))
 			}
 			c.Res.DistinctHash(wk.Hash("dg", d.data))
@@ -552,6 +690,11 @@ func c10(c *Ctx) {
 		}
 	}
 	_ = op
+
+	// ---- the stop signal arrives while an event that has been read is waiting behind a busy callback
+	for k := 0; k < c.N(6, 60); k++ {
+		c10StopWithEventInHand(c, r, k)
+	}
 
 	// ---- rapid start/stop cycles without traffic: the address must be free the moment Listen returns
 	if c.Mode != "tz" {
